@@ -112,3 +112,226 @@ def c02_cases(tier, seed):
                 steps.append(op(name, list(range(1, ar + 1)), 10, bw=True))
                 cases.append(finish(steps, d, k0=5))
     return cases
+
+
+# ---------------------------------------------------------------------------------------------
+# programs enumerated / simulated by TLC from the specification itself (spec -> code direction)
+def tlc_programs(cfg, workdir, simulate=None, seed=1, limit=None, rnd=None):
+    import json, os, re, shutil, subprocess
+    import pipeline as P
+    meta = os.path.join(workdir, "meta_gen_" + cfg)
+    cmd = ["tlc", "-workers", "1", "-metadir", meta, "-cleanup", "-noGenerateSpecTE",
+           "-config", os.path.join(P.SPEC, cfg + ".cfg")]
+    if simulate:
+        cmd += ["-simulate", "num=%d" % simulate[0], "-depth", str(simulate[1]), "-seed", str(seed)]
+    cmd.append(os.path.join(P.SPEC, "GenEngine.tla"))
+    env = dict(os.environ, JAVA_TOOL_OPTIONS="-Xss512m")
+    os.makedirs(workdir, exist_ok=True)
+    p = subprocess.run(cmd, cwd=workdir, env=env, capture_output=True, text=True, timeout=3000)
+    shutil.rmtree(meta, ignore_errors=True)
+    progs, seen = [], set()
+    for ln in p.stdout.splitlines():
+        if ln.startswith('<<"PROG", "'):
+            body = ln[len('<<"PROG", '):-2]
+            if body in seen:
+                continue
+            seen.add(body)
+            progs.append(json.loads(json.loads(body)))
+    if "Error:" in p.stdout or not progs:
+        raise P.ToolError("GenEngine/%s failed:\n%s" % (cfg, "\n".join(p.stdout.splitlines()[-30:])))
+    m = re.search(r"(\d+) states generated, (\d+) distinct states found", p.stdout)
+    stats = {"cfg": cfg, "programs": len(progs), "states": int(m.group(2)) if m else len(progs),
+             "transitions": int(m.group(1)) if m else len(progs), "simulate": bool(simulate)}
+    if limit and len(progs) > limit:
+        progs = (rnd or random.Random(seed)).sample(progs, limit)
+    return progs, stats
+
+
+# ---------------------------------------------------------------------------------------------
+# random programs over the whole exact-domain API (code -> spec direction)
+class Gen:
+    """keeps just enough bookkeeping (dims, tracked flag per handle) to write well-formed programs;
+    it has no values and decides nothing"""
+
+    def __init__(self, rnd, maxel=36):
+        self.r = rnd
+        self.steps = [RESET]
+        self.H = {}          # handle -> {"d": dims, "t": tracked}
+        self.nh = 0
+        self.maxel = maxel
+        self.npass = 0
+
+    def new(self, d, t):
+        self.nh += 1
+        self.H[self.nh] = {"d": list(d), "t": t}
+        return self.nh
+
+    def leaf(self, d, vals=None, trk=None, small=True):
+        n = prod(d)
+        if vals is None:
+            vals = [self.r.choice([-3, -2, -1, 1, 2, 3, F(1, 2), F(-3, 2)] if small else range(-9, 10)) for _ in range(n)]
+        trk = self.r.random() < 0.7 if trk is None else trk
+        h = self.new(d, trk)
+        self.steps.append(leaf(h, d, vals, trk=trk))
+        return h
+
+    def pick(self, pred=lambda h, v: True):
+        c = [h for h, v in self.H.items() if pred(h, v)]
+        return self.r.choice(c) if c else None
+
+    def emit(self, name, args, dims, **par):
+        t = any(self.H[a]["t"] for a in args)
+        if name in ("cadd", "cmul", "csq", "cfma"):
+            par["bw"] = t
+        h = self.new(dims, t)
+        self.steps.append(op(name, args, h, **par))
+        return h
+
+    def random_op(self):
+        r = self.r
+        kind = r.choice(["ew", "ew", "ew", "un", "un", "sum", "reshape", "matmul", "custom", "div", "relu"])
+        if kind == "ew":
+            a = self.pick()
+            b = self.pick(lambda h, v: bdims(self.H[a]["d"], v["d"]) is not None and prod(bdims(self.H[a]["d"], v["d"])) <= self.maxel)
+            if b is None:
+                return
+            if r.random() < 0.5:
+                a, b = b, a
+            name = r.choice(["add", "sub", "mul", "mul", "axpy"])
+            par = {"alpha": sc(r.choice([2, -1, F(1, 2)]))} if name == "axpy" else {}
+            self.emit(name, [a, b], bdims(self.H[a]["d"], self.H[b]["d"]), **par)
+        elif kind == "un":
+            a = self.pick()
+            name = r.choice(["neg", "scale", "scale_l", "powf"])
+            par = {"c": sc(r.choice([2, -1, F(1, 2), 3]))} if name.startswith("scale") else \
+                ({"p": {"n": r.choice([2, 2, 3, 1])}} if name == "powf" else {})
+            self.emit(name, [a], self.H[a]["d"], **par)
+        elif kind == "relu":
+            a = self.pick()
+            self.emit("relu", [a], self.H[a]["d"])
+        elif kind == "sum":
+            a = self.pick()
+            d = self.H[a]["d"]
+            k = r.randint(1, len(d))
+            self.emit("sum", [a], d[:len(d) - k] + [1], k=k)
+        elif kind == "reshape":
+            a = self.pick()
+            t = r.choice(FS.factorizations(prod(self.H[a]["d"])))
+            self.emit("reshape", [a], t, d=t)
+        elif kind == "div":
+            a = self.pick()
+            d = self.H[a]["d"]
+            dd = r.choice([d, d[-1:], [1]])
+            b = self.leaf(dd, [r.choice([1, -1]) * F(2) ** r.randint(-2, 2) for _ in range(prod(dd))])
+            self.emit("div", [a, b], bdims(d, dd))
+        elif kind == "matmul":
+            a = self.pick(lambda h, v: len(v["d"]) >= 2)
+            if a is None:
+                return
+            da = self.H[a]["d"]
+            ta = r.random() < 0.4
+            rows, inner = (da[-1], da[-2]) if ta else (da[-2], da[-1])
+            tb = r.random() < 0.5
+            b = self.pick(lambda h, v: len(v["d"]) >= 2 and (v["d"][-1] if tb else v["d"][-2]) == inner
+                          and bdims(da[:-2] or [1], v["d"][:-2] or [1]) is not None)
+            if b is None:
+                cols = r.randint(1, 3)
+                b = self.leaf([cols, inner] if tb else [inner, cols])
+            db = self.H[b]["d"]
+            cols = db[-2] if tb else db[-1]
+            la, lb = da[:-2], db[:-2]
+            lead = bdims(la, lb) if (la and lb) else (la or lb)
+            args = [a, b]
+            if r.random() < 0.5:
+                dc = r.choice([[cols], [rows, cols], [1, cols], [1]])
+                c = self.pick(lambda h, v: v["d"] == dc)
+                args.append(c if c is not None else self.leaf(dc))
+            if prod(lead + [rows, cols]) <= self.maxel:
+                self.emit("matmul", args, lead + [rows, cols], ta=ta, tb=tb)
+        elif kind == "custom":
+            a = self.pick()
+            same = [h for h, v in self.H.items() if v["d"] == self.H[a]["d"]]
+            name = r.choice(["cadd", "cmul", "csq", "cfma"])
+            ar = {"cadd": 2, "cmul": 2, "csq": 1, "cfma": 3}[name]
+            self.emit(name, [a] + [r.choice(same) for _ in range(ar - 1)], self.H[a]["d"])
+
+    def handle_step(self):
+        r = self.r
+        x = r.random()
+        h = self.pick()
+        if h is None:
+            return
+        if x < 0.35:
+            c = self.new(self.H[h]["d"], self.H[h]["t"])
+            self.steps.append(op("clone", [h], c))
+        elif x < 0.6 and len(self.H) > 2:
+            self.steps.append({"op": "drop", "args": [h]})
+            del self.H[h]
+        else:
+            k = r.choice(["tracked", "untracked", "start", "stop"])
+            self.steps.append({"op": k, "args": [h]})
+            self.H[h]["t"] = k in ("tracked", "start")
+
+    def backward(self, h=None, seeded=None):
+        h = h or self.pick()
+        seeded = self.r.random() < 0.6 if seeded is None else seeded
+        d = self.H[h]["d"]
+        self.steps.append(backward(h, tensor(d, [self.r.choice([1, 2, 3, 5, -1, F(1, 2)]) for _ in range(prod(d))]) if seeded else None))
+        self.npass += 1
+
+    def control_flow(self):
+        """data-dependent branch: c = c*a if c[k] > thr else c + a (both branches give the same dims and flags)"""
+        r = self.r
+        c = self.pick()
+        a = self.pick(lambda h, v: bdims(self.H[c]["d"], v["d"]) == self.H[c]["d"])
+        if a is None:
+            return
+        self.steps.append({"op": "cmp", "args": [c], "k": r.randrange(prod(self.H[c]["d"])), "thr": sc(r.choice([0, 1, -2, 4]))})
+        t = self.H[c]["t"] or self.H[a]["t"]
+        h = self.new(self.H[c]["d"], t)
+        self.steps.append(dict(op("mul", [c, a], h), when=True))
+        self.steps.append(dict(op("add", [c, a], h), when=False))
+
+
+def random_program(rnd, nleaves=(2, 4), nsteps=(4, 12), p_pass=0.22, handles=True, passes_end=True):
+    g = Gen(rnd)
+    base = [rnd.randint(1, 3) for _ in range(rnd.randint(1, 3))]
+    for _ in range(rnd.randint(*nleaves)):
+        d = list(base)
+        x = rnd.random()
+        if x < 0.3:
+            d = [v if rnd.random() < 0.5 else 1 for v in d]
+        elif x < 0.5:
+            d = d[rnd.randrange(len(d)):]
+        g.leaf(d)
+    for _ in range(rnd.randint(*nsteps)):
+        x = rnd.random()
+        if x < p_pass:
+            g.backward()
+        elif x < p_pass + 0.08:
+            h = g.pick()
+            g.steps.append({"op": "clear", "args": [h], "how": rnd.choice(["replace", "mut"])})
+        elif x < p_pass + 0.14:
+            h = g.pick()
+            res = g.nh + 1
+            g.steps.append({"op": "grad", "args": [h], "res": res})
+            # whether a handle appears depends on the state; do not use it later (bookkeeping stays exact)
+            g.nh += 1
+        elif x < p_pass + 0.2 and handles:
+            g.handle_step()
+        elif x < p_pass + 0.25:
+            g.control_flow()
+        elif x < p_pass + 0.28 and handles and len(g.H) > 2:
+            h = g.pick()
+            g.steps.append({"op": "into_vec", "args": [h]})
+            del g.H[h]
+        else:
+            g.random_op()
+    if passes_end:
+        g.backward(h=max(g.H))
+    return g.steps
+
+
+def random_cases(seed, n, **kw):
+    rnd = random.Random(seed)
+    return [random_program(rnd, **kw) for _ in range(n)]
